@@ -401,7 +401,35 @@ def r_store_head(ck: Checker) -> None:
              "uses of the predicate in sums and objectives are replaced by the chain encoding of THIS aggregate: a fact or a second rule for the predicate contributes values the chain does not contain")
 
 
+def r_objective_registry(ck: Checker) -> None:
+    """the tuple-uniqueness test of the objective rewrite compares against `minimizes`: every objective that reaches the
+    result list must have been registered there, whichever way it got into the list"""
+    func = ck.func(f"{CLS}.execute")
+    regs = [c for c in attr_calls(func, "append") if unparse(c.func.value).startswith("minimizes[")]  # type: ignore[attr-defined]
+    ck.need(len(regs) == 1, "execute registers objectives in `minimizes` at one site")
+    reg = regs[0]
+    outs = [c for c in attr_calls(func, "append") + attr_calls(func, "extend") if unparse(c.func.value) == "ret" and enclosing_loop(func, c) is not None]  # type: ignore[attr-defined]
+    ck.need(len(outs) >= 2, "execute emits statements into `ret` inside the loop over the program")
+    n = 0
+    for out in outs:
+        if not isinstance(out.args[0], ast.Name):
+            continue
+        name = out.args[0].id
+        lp = enclosing_loop(func, out)
+        itm = ck.interp(func, Pins.of(vals={f"{name}.ast_type": "ASTType.Minimize"}), mark_stmts={id(enclosing_stmt(func, reg)): "registered"}, clear_marks_at={id(lp): "registered"})
+        sts = itm.states(out)
+        if not sts:
+            continue
+        n += 1
+        same_obj = unparse(reg.args[0]) == name
+        ok = same_obj and all("registered" in s.marks for s in sts)
+        ck.add("every objective that is emitted has been registered for the tuple-uniqueness test", ok, func, out, f"`{fmt(out)}` for an objective: registered on every path: {ok}",
+               "an objective that is passed through without registration is invisible to `_replace_results_in_minimize`: another objective with a unifying tuple is then rewritten into chain tuples although the two tuples used to count once")
+    ck.need(n >= 1, "an emission site reachable for objectives")
+
+
 RULES = [
+    Rule("C12.objective-registry", PG, r_objective_registry),
     Rule("C12.TABLE.process-rule", P, r_process_table),
     Rule("C12.minmax-agg", P, r_minmax_agg),
     Rule("C12.simple", P + ("C07",), r_simple),
